@@ -160,6 +160,10 @@ impl Alt {
             && (ys.clone().all(|y| self.e(y) <= self.s(y + 1)) || ys.clone().all(|y| self.s(y + 1) <= self.e(y)))
             && (ys.clone().all(|y| self.s(y) <= self.e(y + 1)) || ys.clone().all(|y| self.e(y + 1) <= self.s(y)))
     }
+    /// the two interleaving patterns named by C04's quantifier (S<=E<=S' in every year, or E<=S<=E')
+    pub fn interleaving(&self) -> bool {
+        (2000..2400).all(|y| self.s(y) <= self.e(y) && self.e(y) <= self.s(y + 1)) || (2000..2400).all(|y| self.e(y) <= self.s(y) && self.s(y) <= self.e(y + 1))
+    }
     pub fn ranges_ok(&self) -> bool {
         -90000 < self.std_off && self.std_off < 93600 && -90000 < self.dst_off && self.dst_off < 93600 && self.start_time.abs() < 604800 && self.end_time.abs() < 604800
     }
